@@ -88,28 +88,39 @@ def rule_r3(chk, facts):
                     continue
                 his = []
 
-                def want(a, x=x):
+                def want(a, x=x, M=M):
                     if a[0] == 'nz' and isinstance(a[1], tuple) and a[1][0] == 'call' and a[1][1] == ('fn', 'ChkRange'):
                         args = a[1][2]
                         if len(args) == 3 and nocast(args[0]) == x and const_val(args[2]) is not None:
                             his.append(const_val(args[2]))
                             return True
+                        if len(args) == 3 and nocast(args[0]) == x:
+                            # non-constant bound: fine when it is clamped to a constant, min(limit, C) written as ?:
+                            hi = nocast(args[2])
+                            cs = [const_val(y) for y in (hi[2:4] if hi[0] == '?' else ()) if const_val(y) is not None]
+                            his.append(max(cs) if cs else (1 << 62))
+                            return True
                     return False
-                g, w = f.guarded(b, i, lambda l: edge_has_atom(l, want))
-                if not his:
-                    # the F edge of "!ChkRange(..)" inside a compound condition
-                    for s_, d_, l in f.edges():
-                        if l is not None:
-                            edge_has_atom(l, want)
+                # range checks whose accepting edge every path to the mask has to cross (one condition at a time)
+                for s_, d_, l in f.edges():
+                    if l is None or l[0] not in ('T', 'F'):
+                        continue
+                    before = len(his)
+                    if edge_has_atom(l, want):
+                        # the accepting edge must lead to the mask (the check may be skipped for first-pass-unknown values,
+                        # so it need not dominate)
+                        if b != d_ and b not in f.reach_forward([d_]):
+                            del his[before:]
                 if not his:
                     continue
                 n += 1
                 hi = max(his)
                 ok = hi <= M
                 chk.ob('C14-R3', '%s:%s:%s&$%x' % (fn, f.name, show(x), M), ok, f.loc(ln),
-                       'mask covers the accepted range 0..%d' % hi if ok else
-                       '%s is accepted up to %d but then masked with $%x: values above $%x are folded into the field and a '
-                       'later range check on the masked value cannot reject them' % (show(x), hi, M, M))
+                       ('mask covers the accepted range 0..%d' % hi if hi < (1 << 62) else 'mask covers the range') if ok else
+                       '%s is accepted up to %s but then masked with $%x: values above $%x are folded into the field and a '
+                       'later range check on the masked value cannot reject them' %
+                       (show(x), hi if hi < (1 << 62) else 'a bound that is not a constant (segment limit)', M, M))
     if n < 2:
         raise AnalysisBroken('only %d masked range-checked values found' % n)
 
